@@ -44,6 +44,11 @@ class Walker:
         self.cur_feat = None
         self.rebased = {}
         self.confirmed_types = set()
+        self.compactions = 0          # compaction rounds triggered so far in this history (all lifetimes)
+        self.comp_seen = False        # a compaction hand-over gate was reached (also by a round that was then killed)
+        self.comp_at = {}
+        self.clock_regressed = False  # some lifetime started at or before the latest wall-clock value seen earlier
+        self.max_wall = None
         self.samples = []
 
     # ------------------------------------------------------------ helpers
@@ -55,7 +60,9 @@ class Walker:
             pass
         d = {"clause": clause, "life": li, "step": si, "detail": detail, "text": text,
              "after_restart": li > 0, "after_crash": self.crashed_prev,
-             "parked": self.parked_at.get((li, si), []), "tag": self.cur_tag, "feat": self.cur_feat}
+             "parked": self.parked_at.get((li, si), []), "tag": self.cur_tag, "feat": self.cur_feat,
+             "compacted": self.compactions > 0 or self.comp_at.get((li, si), False) or (si < 0 and self.comp_seen), "flush_parked": any(g.startswith("flush") for g in self.parked_at.get((li, si), [])),
+             "clock_regressed": self.clock_regressed}
         d.update(kw)
         self.viol.append(d)
 
@@ -91,12 +98,15 @@ class Walker:
         parked_now = {}
         for e in events:
             t = e.get("t")
+            if t == "gate" and str(e.get("name", "")).startswith("compact."):
+                self.comp_seen = True
             if t == "gate" and e.get("parked"):
                 parked_now[e.get("rule")] = e.get("name")
             elif t == "release":
                 parked_now.pop(e.get("rule"), None)
             elif t == "issue":
                 self.parked_at[(li, e["step"])] = sorted(parked_now.values())
+                self.comp_at[(li, e["step"])] = self.comp_seen
             if t == "resp":
                 resp_by_step[e["step"]] = e
             elif t == "issue":
@@ -141,6 +151,12 @@ class Walker:
             # died during start-up (recovery); nothing was served in this lifetime
             self.stats["crash_in_startup"] += 1
 
+        start_wall = life.get("wall_clock_ms")
+        if start_wall is not None:
+            if self.max_wall is not None and start_wall <= self.max_wall:
+                self.clock_regressed = True
+            walls = [e["wall_ms"] for e in events if e.get("t") == "issue" and "wall_ms" in e]
+            self.max_wall = max([start_wall] + walls + ([self.max_wall] if self.max_wall is not None else []))
         self.checkpoint = {}
         steps = life.get("steps", [])
         # A crash (not a kill while idle) interrupts the step that was issued last: even if its response
@@ -153,6 +169,10 @@ class Walker:
             if st.get("op", "cmd") != "cmd":
                 if kind == "checkpoint":
                     self.checkpoint = {}
+                if st.get("op") == "advance" and any(e.get("t") == "advanced" and e.get("step") == si for e in events):
+                    iv = (self.plan.get("config") or {}).get("compaction_interval", 3600) * 1000
+                    if st.get("ms", 0) >= iv:
+                        self.compactions += 1
                 continue
             if si not in issue_by_step:
                 break  # never issued: the process died before
@@ -408,7 +428,7 @@ def _invariance(self, li, si, text, answer, what="answer"):
     elif prev[0] != answer:
         self.v("layout-variance", li, si,
                f"{text}: {what} {answer} differs from {prev[0]} given at life {prev[1]} step {prev[2]} for the same history",
-               atoms=getattr(self, "_cur_atoms", None))
+               atoms=getattr(self, "_cur_atoms", None), inv_kind=what)
     self.stats["invariance_checks"] += 1
 
 
